@@ -17,7 +17,10 @@ def check(ctx, rep):
         "(mutator call, augmented or plain assignment, del, setattr, through a local alias too) sits in "
         "requires(), the job constructor, sanitize() or bypass_and_remove(), or in a private helper only they call. R19.9 a sequence never drops a requirement: "
         "on every path of its constructor and of its requires(), what was given is handed to a job's requires() or "
-        "kept in the object, and append() hands what was kept to the first job of a sequence that was empty. R19.10 (= R20.6) no class-level mutable object is mutated through an instance (state shared by every sequence / job).")
+        "kept in the object, and append() hands what was kept to the first job of a sequence that was empty. R19.10 (= R20.6) no class-level mutable object is mutated through an instance (state shared by every sequence / job). "
+        "R19.11 no live iteration while removing: a loop of requires() (or of a helper or generator it runs) whose body can remove from "
+        "self.required iterates the varargs tuple, a snapshot (list(x), tuple(x), x.copy()), another attribute or a name an isinstance guard "
+        "shows not to be a set - never an argument that may be self.required itself.")
     rep.trusted = ["T8 set/list semantics"]
     buildrules.construction(ctx, rep, "R19.1", "R19.2", "R19.3", "R19.4", "R19.5")
     from . import common
@@ -30,3 +33,4 @@ def check(ctx, rep):
     buildrules.relation_writers(ctx, rep, "R19.8")
     buildrules.sequence_keeps_requirements(ctx, rep, "R19.9")
     common.no_shared_class_state(ctx, rep, "R19.10")
+    buildrules.no_live_iteration_while_removing(ctx, rep, "R19.11")
